@@ -91,7 +91,7 @@ def optRecord (toks : Array String) : String := Id.run do
   let graderr : Rat := if numGrad then (if method == 1 then rq 1 10000000 else rq 1 10000) * (1 + absR fret) else 0
   let boundSq : Rat := match alg with
     | .lbfgs => let t := tol * maxR (rq 1 10) (absR fret) * rq 1001 1000 + graderr; (n : Rat) * t * t
-    | .lbfgsb => let t := 50 * (tol + graderr) + rq 2 1000; t * t
+    | .lbfgsb => 2 * (rq 22 100000000 + 50 * (n : Rat) * (tol + graderr) * (tol + graderr)) * maxR 1 (absR (P.F (ratVec xsf)))
     | .interiorPoint => let t := 200 * (tol + ctol + graderr) + rq 1 10000; t * t
     | .cmaes => 2500 * tol
     | _ => 1
